@@ -436,7 +436,7 @@ func init() {
 	mc.Register(&mc.Check{
 		ID:    "C18",
 		Title: "Independent readers, writers and marshal calls can run concurrently",
-		Rule: "eight scenarios of three threads forced to meet on shared objects or shared helpers (two binary writers and a local symbol table over one SharedSymbolTable; two readers importing one catalog table with different max_id plus a resolver calling Adjust; MarshalText/MarshalBinary/Unmarshal of one struct type, and of a struct type no thread has seen before; text reader, text writer and NewLocalSymbolTable over the system table; an Encoder/Decoder pair and two container-emitting writers; two text writers escaping control characters and formatting numbers plus a reader decoding escapes; decimals and timestamps parsed, computed and formatted in three threads). Package ion is re-instrumented from /repo's current sources on every run: every statement touching a package-level variable or a field of sst/bogusSST/lst/symbolTableBuilder/basicCatalog calls a hook that is a scheduling point and an access record; every Mutex/RWMutex/Once/atomic operation calls a hook that models it (a waiting thread is not enabled; release/acquire pairs are vector-clock happens-before edges); every io.Writer.Write of the scenarios is a scheduling point too. Before every execution the generated VerifReset re-runs all package-level initialisers and zeroes the other package variables, so lazily built package state is cold under every schedule. " +
+		Rule: "nine scenarios of three threads forced to meet on shared objects or shared helpers (two binary writers and a local symbol table over one SharedSymbolTable; two readers importing one catalog table with different max_id plus a resolver calling Adjust; MarshalText/MarshalBinary/Unmarshal of one struct type, and of a struct type no thread has seen before; text reader, text writer and NewLocalSymbolTable over the system table; an Encoder/Decoder pair and two container-emitting writers; two text writers escaping control characters and formatting numbers plus a reader decoding escapes; decimals and timestamps parsed, computed and formatted in three threads; two binary readers decoding timestamps with local offsets plus a binary writer of timestamps). Package ion is re-instrumented from /repo's current sources on every run: every statement touching a package-level variable or a field of sst/bogusSST/lst/symbolTableBuilder/basicCatalog calls a hook that is a scheduling point and an access record; every Mutex/RWMutex/Once/atomic operation calls a hook that models it (a waiting thread is not enabled; release/acquire pairs are vector-clock happens-before edges); every io.Writer.Write of the scenarios is a scheduling point too. Before every execution the generated VerifReset re-runs all package-level initialisers and zeroes the other package variables, so lazily built package state is cold under every schedule. " +
 			"Under a cooperative scheduler ALL schedules with at most d preemptions are enumerated (all serial orders included). Oracles on every schedule: no deadlock (some live thread is always enabled); each thread's observable result equals its result when run alone; the conflict monitor finds no two accesses to the same (object, field) or package variable from different threads, at least one a write, not both atomic, and unordered by happens-before. With no conflicting pair all interleavings are equivalent to a serial order, so the exploration is complete for the harness. If the sources use synchronisation the scheduler has no model for (channels, go statements, WaitGroup, Cond, sync.Map) the monitor's verdicts are switched off (listed in the evidence) and the other oracles decide. The quick tier offers preemption only at points on locations some serial run writes, synchronisation operations and I/O points; the thorough tier at every point. A free-running -race pass of the same bodies complements it (hand-offs of a cooperative scheduler are happens-before edges that blind the detector). " +
 			"non-trivial = a complete schedule was executed and all oracles evaluated; distinct = distinct (scenario, schedule) digests",
 		Bounds:      map[string]string{"quick": "d<=2 preemptions, preemption points on ever-written locations + I/O points", "thorough": "d<=3 preemptions at every instrumented point"},
